@@ -4,7 +4,8 @@
  *   build <dsl> <desc>                            build explicit nodes, validate (adds defaults)  -> ok <dump> | err Invalid   [impl only]
  *   diff <dsl> <A> <B> <opts>                     lyd_diff_siblings, all siblings                 -> ok <dump>
  *   reverse <dsl> <A> <B> <opts>                  r = lyd_diff_reverse_all(diff(A,B)); apply r to B; compare with A
- *                                                 -> ok <dump r> <dump apply | DupInstances | E:<err>> <same|differs|->  | err Reverse:<E>
+ *                                                 -> ok <dump r> <dump apply | DupInstances | E:<err>> <same|differs|-> [P:<n>] | err Reverse:<E>
+ *                                                 (P:<n>, implementation only: lyd_diff_apply_all left `data` n siblings behind the first one)
  *   merge3 <dsl> <A> <B> <C> <opts> <mopts>       m = lyd_diff_merge_all(diff(A,B), diff(B,C)); apply m to A; compare with C
  *                                                 -> ok <dump m> <dump apply | DupInstances | E:<err>> <same|differs|->  | err Merge:<E>
  *   lawr <dsl> <A> <B> <opts>                     more laws of reverse on the implementation      -> ok <name>=<verdict>*        [impl only]
@@ -139,6 +140,22 @@ fresh(const struct tp_schema *s, const char *tok)
     return t;
 }
 
+/* development aid: where do two trees with equal dumps differ for lyd_compare_single? */
+static void
+dbg_cmp(const struct lyd_node *a, const struct lyd_node *b, int depth)
+{
+    for ( ; a && b; a = a->next, b = b->next) {
+        if (a->hash != b->hash) {
+            fprintf(stderr, "[cmp] depth %d node %s: hash %u vs %u (flags %x %x)\n", depth, LYD_NAME(a), a->hash, b->hash, a->flags, b->flags);
+        }
+        if (lyd_compare_single(a, b, 0)) {
+            fprintf(stderr, "[cmp] depth %d node %s: lyd_compare_single(0) differs\n", depth, LYD_NAME(a));
+        }
+        dbg_cmp(lyd_child(a), lyd_child(b), depth + 1);
+    }
+    if (a || b) fprintf(stderr, "[cmp] depth %d: different number of siblings\n", depth);
+}
+
 /* fields `<apply-result> <verdict>`: apply `d` (from its first sibling) to the tree `*data`, compare with `want` */
 static void
 apply_fields(const struct tp_schema *s, struct lyd_node **data, const struct lyd_node *d, const struct lyd_node *want, int dflt,
@@ -146,12 +163,18 @@ apply_fields(const struct tp_schema *s, struct lyd_node **data, const struct lyd
 {
     LY_ERR rc;
 
+    unsigned stale;
+
     rc = lyd_diff_apply_all(data, d ? lyd_first_sibling(d) : NULL);
     if (rc) {
         dbgmsg(s, what);
         fprintf(stdout, " E:%s -", tp_errname(rc));
         return;
     }
+    /* lyd_diff_apply_all(&data, …) must leave `data` at the first sibling; the comparison below starts from the real first
+     * sibling, the distance is reported in the implementation-only field P:<n> (finding F134) */
+    stale = nprev(*data);
+    *data = lyd_first_sibling(*data);
     if (has_dup_inst(*data)) {
         fprintf(stdout, " DupInstances");
     } else {
@@ -159,7 +182,7 @@ apply_fields(const struct tp_schema *s, struct lyd_node **data, const struct lyd
     }
     if (!dflt && lyd_validate_module(data, s->mod, 0, NULL)) {
         dbgmsg(s, "revalidation");
-        fprintf(stdout, " differs");
+        fprintf(stdout, " differs P:%u", stale);
         return;
     }
     if (getenv("VERIF_VERBOSE") && !same(*data, want, dflt)) {
@@ -167,8 +190,9 @@ apply_fields(const struct tp_schema *s, struct lyd_node **data, const struct lyd
 
         fprintf(stderr, "[%s] result:\n%s\nwanted:\n%s\n", what, t, w);
         free(t); free(w);
+        dbg_cmp(*data, want, 0);
     }
-    fprintf(stdout, " %s", same(*data, want, dflt) ? "same" : "differs");
+    fprintf(stdout, " %s P:%u", same(*data, want, dflt) ? "same" : "differs", stale);
 }
 
 static void
